@@ -3,6 +3,8 @@
 Monitors (post-conditions on every execution, wherever the call comes from):
   Signal.gen_fa_spectrum, the lazy properties Signal.fa_spectrum / Signal.fa_freqs, generate_fa_spectrum,
   calc_fa_spectrum   -> number of bins, every bin against the direct-sum DFT oracle, frequency grid, Parseval;
+  (a lazy read whose object's values changed since its spectrum was last generated is judged against the CURRENT
+  values under the clauses lazy-after-mutation.*; the workload drives read -> public mutator(s) -> read histories);
   fas2values / fas2signal -> length, real-valuedness, forward spectrum of the result equals the given bins;
   im.max_fa_period   -> the reported period is that of a largest-amplitude bin.
 Relations between executions (checked by the driver on the returned values): object == array level, linearity,
@@ -32,7 +34,14 @@ RULE = ('case = (record, dt, Signal|AccSignal, p2_plus, explicit n); each case r
         'record (linearity) or trailing zeros. Lengths: EVERY npts 2..130 (x2 quick, x6 thorough; explicit n cycles '
         'through npts, npts+1, next odd, next even, next pow2, random), every 2^e-1, 2^e, 2^e+1 up to 2048 (thorough 4096), '
         'log-uniform random lengths up to 2048 (thorough 4096); record classes and dt classes of vf/gen.py; '
-        'distinct = digest(values, dt, class, options); non-trivial = record not identically zero.')
+        'distinct = digest(values, dt, class, options); non-trivial = record not identically zero. '
+        'Object histories (Signal and AccSignal): [optional gen_fa_spectrum(p2_plus|n)] -> 1..3 reads of fa_spectrum / '
+        'fa_freqs / fa_frequencies / max_fa_period in random order -> ONE or TWO public mutators (every mutator kind is '
+        'the first one of a history in turn: reset_values same/shorter/longer, add_constant, add_series, add_signal, '
+        'butter_pass band/low/high, remove_average, remove_poly 0..3, running_average; AccSignal also '
+        'remove_rolling_average velocity/acceleration, rebase_displacement, set_zero_residual_velocity None/(t0,t1)/(t0,None), '
+        'set_zero_residual_displacement, set_zero_residual_displacement_and_velocity None/(t0,t1)/(t0,None), correct_me) '
+        '-> reads again under the lazy monitor; records >= 64 samples for filters and baseline corrections.')
 ASSUMPTIONS = ['real, finite, 1-D float64/integer record of length >= 2; dt > 0 finite (float32 records are computed in '
                'single precision by numpy and are counted, not judged)',
                'explicit n >= npts (n < npts truncates: outside "zero-padded", counted, not judged)',
@@ -40,6 +49,8 @@ ASSUMPTIONS = ['real, finite, 1-D float64/integer record of length >= 2; dt > 0 
                'bins compared completely for N <= 4096, on 256 deterministic bins above (p2_plus on long records)',
                'round trip through the inverse helper judged for even N only (an odd N has no Nyquist bin); the '
                'function-level post-condition of fas2values/fas2signal is judged for every spectrum',
+               'exceptions raised by a mutator inside an object history are counted, not judged (the mutators are C17); '
+               'the read after it is judged against the current values in any case',
                'oracle vf/oracles/dft.py is correct (direct sum with integer phase reduction; self-test at start-up)']
 MIN_EVALS = {   # about half of what a normal run reaches
     'quick': {'gen_fa_spectrum.bins==dt*DFT': 2500, 'lazy.bins==dt*DFT': 7000,
@@ -52,7 +63,8 @@ MIN_EVALS = {   # about half of what a normal run reaches
               'fas2values.length==2*nbins': 1600, 'fas2signal.length==2*nbins': 500, 'fas2values.real': 1600,
               'fas2signal.real': 500, 'fas2values.spectrum==fas': 1600, 'fas2signal.spectrum==fas': 500,
               'fas2signal.type+dt': 500, 'inverse.roundtrip==x_pad-mean-nyquist': 1400,
-              'max_fa_period==1/f[argmax|F|]': 1000},
+              'max_fa_period==1/f[argmax|F|]': 1000, 'lazy-after-mutation.bins==dt*DFT(current values)': 250,
+              'lazy-after-mutation.nbins==N//2': 250, 'lazy-after-mutation.freqs==k/(N*dt)': 250},
     'thorough': {'gen_fa_spectrum.bins==dt*DFT': 9500, 'lazy.bins==dt*DFT': 27000,
                  'generate_fa_spectrum.bins==dt*DFT': 4500, 'calc_fa_spectrum.bins==dt*DFT': 9000,
                  'gen_fa_spectrum.nbins==N//2': 9500, 'lazy.nbins==N//2': 27000,
@@ -63,12 +75,14 @@ MIN_EVALS = {   # about half of what a normal run reaches
                  'fas2values.length==2*nbins': 6000, 'fas2signal.length==2*nbins': 2000, 'fas2values.real': 6000,
                  'fas2signal.real': 2000, 'fas2values.spectrum==fas': 6000, 'fas2signal.spectrum==fas': 2000,
                  'fas2signal.type+dt': 2000, 'inverse.roundtrip==x_pad-mean-nyquist': 5500,
-                 'max_fa_period==1/f[argmax|F|]': 4000}}
+                 'max_fa_period==1/f[argmax|F|]': 4000, 'lazy-after-mutation.bins==dt*DFT(current values)': 1600,
+                 'lazy-after-mutation.nbins==N//2': 1600, 'lazy-after-mutation.freqs==k/(N*dt)': 1600}}
 EXHAUSTIVE = {'quick': 'every record length 2..130 (4 records each) through every entry point; every 2^e-1, 2^e, 2^e+1, e=3..11',
               'thorough': 'every record length 2..130 (12 records each) through every entry point; every 2^e-1, 2^e, 2^e+1, e=3..12'}
 
 CTX = None
-_LAST = {}      # id(signal) -> (weakref, p2_plus, n, N) of the last monitored gen_fa_spectrum on that object
+_LAST = {}      # id(signal) -> (weakref, p2_plus, n, N, digest(values)) of the last monitored gen_fa_spectrum on it
+_HISTORY = [None]   # parameters of the object history being driven (only to make the monitor's witness replayable)
 _DFT_CACHE = {}  # (digest(x_pad), bins tag) -> (ks, X)
 _GEN_SEQ = [0]   # number of monitored gen_fa_spectrum returns (tells a property access that it triggered a generation)
 
@@ -150,7 +164,7 @@ def _sig_wit(sig, fn, **kw):
 
 
 # ---------------------------------------------------------------------------------------------------- monitors
-def check_spectrum(ctx, where, wit, x, dt, N, fa, fr):
+def check_spectrum(ctx, where, wit, x, dt, N, fa, fr, bins_label='bins==dt*DFT'):
     """The post-condition proper: fa, fr as reported for the record x zero-padded to N (N from the statement)."""
     if N < len(x):
         ctx.observe('not judged: n < npts (truncation)')
@@ -173,7 +187,7 @@ def check_spectrum(ctx, where, wit, x, dt, N, fa, fr):
     scale = dt * float(np.sum(np.abs(x)))
     got = fa[ks]
     okb, idx, err, allowed = tol.worst(got, ref, scale=scale, rtol=RTOL_BIN)
-    _judge(ctx, okb, where + '.bins==dt*DFT', wit,
+    _judge(ctx, okb, where + '.' + bins_label, wit,
            lambda: '%s: npts=%d N=%d dt=%r: bin %s reported %r, dt*DFT=%r, |diff|=%.3g allowed %.3g'
            % (where, len(x), N, dt, None if idx is None else int(ks[idx[0]]),
               None if idx is None else complex(got[idx]), None if idx is None else complex(ref[idx]), err, allowed))
@@ -219,7 +233,7 @@ def _post_gen(args, kwargs, result, pre):
     if len(_LAST) > 2000:
         for k in [k for k, v in _LAST.items() if v[0]() is None]:
             del _LAST[k]
-    _LAST[id(self)] = (weakref.ref(self), p2_plus, n, N)
+    _LAST[id(self)] = (weakref.ref(self), p2_plus, n, N, core.digest(np.asarray(self.values)))
     if N is None:
         return
     with attach.paused():
@@ -229,16 +243,33 @@ def _post_gen(args, kwargs, result, pre):
                    x, dt, N, fa, fr)
 
 
-def _post_lazy(self, result, which, triggered):
-    """Lazy properties: the spectrum of the CURRENT record with the N of the last explicit gen_fa_spectrum on this
-    object; the default N when the access itself had to trigger the generation (triggered) or none was seen."""
+def _pre_lazy(self):
+    """Before the getter runs: (generation counter, have the values changed since the spectrum was last generated?)."""
+    ent = _LAST.get(id(self))
+    changed = False
+    if ent is not None and ent[0]() is self:
+        try:
+            changed = core.digest(np.asarray(self.values)) != ent[4]
+        except Exception:
+            changed = False
+    return _GEN_SEQ[0], changed
+
+
+def _post_lazy(self, result, state, which):
+    """Lazy properties: the spectrum of the object's CURRENT record. N is the one of the last explicit gen_fa_spectrum
+    on this object; the default N when the read itself had to trigger the generation, when no generation was seen, or
+    when the values have changed since the last generation (every public mutator invalidates the spectrum, so the read
+    must regenerate with the defaults; a stale spectrum is refuted here). Reads of the last kind are reported under
+    their own clause names 'lazy-after-mutation.*'."""
+    seq0, changed = state
+    triggered = _GEN_SEQ[0] != seq0
     rec = _record_of(CTX, self)
     if rec is None:
         return
     x, dt = rec
     ent = _LAST.get(id(self))
-    if not triggered and ent is not None and ent[0]() is self:
-        _, p2_plus, n, N = ent
+    if not triggered and not changed and ent is not None and ent[0]() is self:
+        p2_plus, n, N = ent[1], ent[2], ent[3]
         prior = {'p2_plus': p2_plus, 'n': n}
     else:
         N, prior = O.n_padded(len(x)), None
@@ -247,7 +278,13 @@ def _post_lazy(self, result, which, triggered):
     with attach.paused():
         fa = result if which == 'fa_spectrum' else self.fa_spectrum
         fr = result if which == 'fa_freqs' else self.fa_freqs
-    check_spectrum(CTX, 'lazy', lambda: _sig_wit(self, 'Signal.' + which, prior_gen=prior), x, dt, N, fa, fr)
+    hist = _HISTORY[0]
+    wit = (lambda: dict(hist, fn='rel.history')) if hist is not None else \
+        (lambda: _sig_wit(self, 'Signal.' + which, prior_gen=prior))
+    if changed:
+        check_spectrum(CTX, 'lazy-after-mutation', wit, x, dt, N, fa, fr, bins_label='bins==dt*DFT(current values)')
+    else:
+        check_spectrum(CTX, 'lazy', wit, x, dt, N, fa, fr)
 
 
 def _post_generate(args, kwargs, result, pre):
@@ -377,29 +414,6 @@ def _post_max_fa_period(args, kwargs, result, pre):
               else 'not the period of any reported bin', top, int(np.argmax(amp)), float(periods[int(np.argmax(amp))])))
 
 
-def _wrap_property(cls, name, post):
-    """Monitor a lazy property. Local variant of attach.wrap_property: the post-condition also needs to know whether
-    the read itself triggered a generation (pre/post comparison of _GEN_SEQ), which decides the expected N."""
-    prop = cls.__dict__[name]
-    if getattr(prop.fget, '__vf_c06__', False):
-        return
-    orig = prop.fget
-    qual = '%s.%s.%s' % (cls.__module__, cls.__name__, name)
-
-    def fget(self):
-        if not attach.STATE['enabled']:
-            return orig(self)
-        attach.CALLS[qual] = attach.CALLS.get(qual, 0) + 1
-        seq0 = _GEN_SEQ[0]
-        r = orig(self)
-        post(self, r, name, _GEN_SEQ[0] != seq0)
-        return r
-
-    fget.__vf_c06__ = True
-    fget.__vf_orig__ = orig
-    setattr(cls, name, property(fget, prop.fset, prop.fdel, prop.__doc__))
-
-
 def install(ctx):
     """Attach the C06 monitors to the imported eqsig (idempotent per process)."""
     global CTX
@@ -409,8 +423,8 @@ def install(ctx):
     if getattr(install, 'done', False):
         return
     attach.wrap_method(eqsig.Signal, 'gen_fa_spectrum', _post_gen)
-    _wrap_property(eqsig.Signal, 'fa_spectrum', _post_lazy)
-    _wrap_property(eqsig.Signal, 'fa_freqs', _post_lazy)
+    attach.wrap_property(eqsig.Signal, 'fa_spectrum', lambda o, v, st: _post_lazy(o, v, st, 'fa_spectrum'), pre=_pre_lazy)
+    attach.wrap_property(eqsig.Signal, 'fa_freqs', lambda o, v, st: _post_lazy(o, v, st, 'fa_freqs'), pre=_pre_lazy)
     attach.wrap(fq, 'generate_fa_spectrum', _post_generate)
     attach.wrap(fq, 'calc_fa_spectrum', _post_calc)
     attach.wrap(fq, 'fas2values', _post_fas2values)
@@ -561,6 +575,172 @@ def rel_trailing_zeros(ctx, eqsig, p):
            % (nz, len(x), mode, np.shape(f0), np.shape(f1)))
 
 
+# ---------------------------------------------------------------------------------------------------- object histories
+SIGNAL_MUTATORS = ['reset_values/same', 'reset_values/shorter', 'reset_values/longer', 'add_constant', 'add_series',
+                   'add_signal', 'butter_pass/band', 'butter_pass/low', 'butter_pass/high', 'remove_average', 'remove_poly',
+                   'running_average']
+ACC_MUTATORS = ['remove_rolling_average/velocity', 'remove_rolling_average/acceleration', 'rebase_displacement',
+                'set_zero_residual_velocity/None', 'set_zero_residual_velocity/t0,t1', 'set_zero_residual_velocity/t0,None',
+                'set_zero_residual_displacement', 'set_zero_residual_displacement_and_velocity/None',
+                'set_zero_residual_displacement_and_velocity/t0,t1', 'set_zero_residual_displacement_and_velocity/t0,None',
+                'correct_me']
+LONG_ONLY = set(ACC_MUTATORS) | {'butter_pass/band', 'butter_pass/low', 'butter_pass/high'}    # need >= 64 samples
+HISTORY_COMBOS = [('Signal', k) for k in SIGNAL_MUTATORS] + [('AccSignal', k) for k in SIGNAL_MUTATORS + ACC_MUTATORS]
+
+
+def _draw_mutator(rng, kind, npts, dt):
+    """One JSON-able mutator call [method, args...] of the given kind for an object holding npts samples."""
+    name, _, var = kind.partition('/')
+    if name == 'reset_values':
+        if var == 'same':
+            m = npts
+        elif var == 'shorter':
+            m = int(rng.integers(2, max(3, npts)))
+        else:
+            m = npts + int(rng.integers(1, npts + 4))
+        v = gen.record(rng, m)[0]
+        return [name, [float(t) for t in v] if rng.random() < 0.2 else v]
+    if name == 'add_constant':
+        return [name, float(rng.choice([-1.0, 1.0]) * 10.0 ** rng.uniform(-2, 1))]
+    if name in ('add_series', 'add_signal'):
+        return [name, gen.record(rng, npts)[0]]
+    if name == 'butter_pass':
+        nyq = 0.5 / dt
+        lo, hi = float(nyq * rng.uniform(0.02, 0.2)), float(nyq * rng.uniform(0.4, 0.9))
+        cut = {'band': [lo, hi], 'low': [None, hi], 'high': [lo, None]}[var]
+        kw = {}
+        if rng.random() < 0.3:
+            kw['remove_gibbs'] = ['start', 'end', 'mid'][int(rng.integers(3))]
+        if rng.random() < 0.3:
+            kw['filter_order'] = int(rng.integers(2, 5))
+        return [name, cut, kw]
+    if name == 'remove_average':
+        return [name, -1 if rng.random() < 0.6 else int(rng.integers(1, npts))]
+    if name == 'remove_poly':
+        return [name, int(rng.integers(0, 4))]
+    if name == 'running_average':
+        return [name, int(rng.integers(1, 10))]
+    if name == 'remove_rolling_average':
+        width = int(rng.integers(1, 16))
+        return [name, var, float(1.0 / ((width + 0.5) * dt))]
+    if name in ('set_zero_residual_velocity', 'set_zero_residual_displacement_and_velocity'):
+        if var == 'None':
+            return [name, None]
+        i0 = int(rng.integers(0, npts - 8))
+        t0 = (i0 + 0.5) * dt
+        if var == 't0,None':
+            return [name, [t0, None]]
+        i1 = int(rng.integers(i0 + 3, npts))
+        return [name, [t0, (i1 + 0.5) * dt]]
+    return [name]          # rebase_displacement, set_zero_residual_displacement, correct_me
+
+
+def _apply_mutator(s, m):
+    name = m[0]
+    if name == 'reset_values':
+        s.reset_values(m[1])
+    elif name == 'add_constant':
+        s.add_constant(m[1])
+    elif name == 'add_series':
+        s.add_series(m[1])
+    elif name == 'add_signal':
+        s.add_signal(type(s)(m[1], s.dt))
+    elif name == 'butter_pass':
+        s.butter_pass(tuple(m[1]), **m[2])
+    elif name == 'remove_average':
+        s.remove_average(section=m[1])
+    elif name == 'remove_poly':
+        s.remove_poly(poly_fit=m[1])
+    elif name == 'running_average':
+        s.running_average(m[1])
+    elif name == 'remove_rolling_average':
+        s.remove_rolling_average(mtype=m[1], freq_window=m[2])
+    elif name in ('set_zero_residual_velocity', 'set_zero_residual_displacement_and_velocity'):
+        getattr(s, name)(timezone=m[1])
+    elif name in ('rebase_displacement', 'set_zero_residual_displacement', 'correct_me'):
+        getattr(s, name)()
+    else:
+        raise ValueError('unknown mutator %r' % (name,))
+
+
+def _read(eqsig, s, what):
+    """One read through the public API; every one of them passes the lazy monitor."""
+    if what == 'max_fa_period':
+        return eqsig.im.max_fa_period(s)
+    return getattr(s, what)
+
+
+def rel_history(ctx, eqsig, p):
+    """read(s) -> one or two public mutators -> read(s) again. The verdict comes from the lazy monitor: whatever is read
+    must be dt*DFT of the object's CURRENT zero-padded values (clauses lazy-after-mutation.* for the first read after a
+    change of the values, lazy.* for the others). Exceptions of a mutator are counted, not judged (C17 judges the
+    mutators); the read after is judged in any case."""
+    _HISTORY[0] = p
+    try:
+        s = _mk(eqsig, p['cls'], p['values'], p['dt'])
+        g = p.get('gen')
+        if g:
+            s.gen_fa_spectrum(p2_plus=g.get('p2_plus', 0), n=g.get('n'))
+        for what in p['reads_before']:
+            _read(eqsig, s, what)
+        for m in p['mutators']:
+            try:
+                with np.errstate(all='ignore'):
+                    _apply_mutator(s, m)
+            except Exception as e:
+                ctx.observe('history: mutator %s raised %s (counted, not judged here)' % (m[0], type(e).__name__))
+        for what in p['reads_after']:
+            _read(eqsig, s, what)
+    finally:
+        _HISTORY[0] = None
+
+
+def _draw_history(rng, h, tier):
+    clsname, kind = HISTORY_COMBOS[h % len(HISTORY_COMBOS)]
+    kinds = [kind]
+    pool = SIGNAL_MUTATORS + (ACC_MUTATORS if clsname == 'AccSignal' else [])
+    if rng.random() < 0.4:
+        kinds.append(pool[int(rng.integers(len(pool)))])
+    need_long = any(k in LONG_ONLY for k in kinds)
+    nmax = 1024 if tier == 'quick' else 2048
+    lo = 64 if need_long else 4
+    npts = int(round(2.0 ** rng.uniform(np.log2(lo), np.log2(nmax if need_long or rng.random() < 0.3 else 200))))
+    npts = min(max(npts, lo), nmax)
+    x = np.zeros(npts)
+    while not np.any(x != 0):
+        x, rcls = gen.record(rng, npts)
+    cont = 'f64'
+    if np.all(x == np.round(x)) and rng.random() < 0.3:
+        xin, cont = x.astype(np.int64), 'i64'         # in-place corrections raise on these: counted, read-after still judged
+    else:
+        xin = x
+    dt = gen.dt(rng)
+    mutators = []
+    n_now = npts
+    for k in kinds:
+        m = _draw_mutator(rng, k, n_now, dt)
+        mutators.append(m)
+        if m[0] == 'reset_values':
+            n_now = len(m[1])
+            if n_now < 64:
+                break                                   # later long-only mutators would only raise
+    names = ['fa_spectrum', 'fa_freqs', 'fa_frequencies']
+    before = [names[int(i)] for i in rng.permutation(3)[:int(rng.integers(1, 4))]]
+    after = [names[int(i)] for i in rng.permutation(3)[:int(rng.integers(1, 4))]]
+    if rng.random() < 0.3:
+        before.insert(int(rng.integers(len(before) + 1)), 'max_fa_period')
+    if rng.random() < 0.5:
+        after.insert(int(rng.integers(len(after) + 1)), 'max_fa_period')
+    g = None
+    r = rng.random()
+    if r < 0.2:
+        g = {'p2_plus': int(rng.integers(0, 4)), 'n': None}
+    elif r < 0.3:
+        g = {'p2_plus': 0, 'n': npts + int(rng.integers(0, npts + 2))}
+    p = {'values': xin, 'dt': dt, 'cls': clsname, 'gen': g, 'reads_before': before, 'mutators': mutators, 'reads_after': after}
+    return p, kinds, rcls, cont
+
+
 # ---------------------------------------------------------------------------------------------------- workload
 def _explicit_n(rng, npts, i):
     """Explicit n >= npts cycling through the classes of DESIGN (c)."""
@@ -673,6 +853,23 @@ def run_shard(ctx):
             except Exception as e:
                 ctx.exception('trailing-zeros', dict(q, fn='rel.trailing_zeros'), e)
     ctx.exhaustive['record_lengths_2..130_and_pow2+-1_cases'] = n_enum
+    # -- object histories: read -> mutate through the public API -> read again --------------------------------------
+    n_hist = 560 if quick else 3500
+    for h in core.split_range(n_hist, ctx.shard, ctx.nshards):
+        if ctx.out_of_time():
+            ctx.observe('stopped by the safety-net budget')
+            break
+        p, kinds, rcls, cont = _draw_history(rng, h, ctx.tier)
+        ctx.case(core.digest(p['values'], p['dt'], p['cls'], repr(p['mutators']), p['reads_before'], p['reads_after']),
+                 nontrivial=True, cls='history/%s/%s' % (p['cls'], '+'.join(kinds)),
+                 sample={'history': True, 'npts': len(p['values']), 'dt': p['dt'], 'cls': p['cls'], 'record': rcls,
+                         'container': cont, 'gen': p['gen'], 'reads_before': p['reads_before'],
+                         'mutators': [[m[0]] + [a for a in m[1:] if not isinstance(a, np.ndarray)] for m in p['mutators']],
+                         'reads_after': p['reads_after']})
+        try:
+            rel_history(ctx, eqsig, p)
+        except Exception as e:
+            ctx.exception('lazy-after-mutation.bins==dt*DFT(current values)', dict(p, fn='rel.history'), e)
     # -- informational probes, no verdict ---------------------------------------------------------------------
     if ctx.shard == 0:
         s = eqsig.AccSignal(np.sin(np.arange(40) * 0.3), 0.01)
@@ -710,6 +907,8 @@ def replay(w):
         rel_linearity(ctx, eqsig, w)
     elif fn == 'rel.trailing_zeros':
         rel_trailing_zeros(ctx, eqsig, w)
+    elif fn == 'rel.history':
+        rel_history(ctx, eqsig, w)
     elif fn == 'fas2values':
         eqsig.fas2values(w['fas'], w['dt'])
     elif fn == 'fas2signal':
